@@ -693,6 +693,63 @@ func main() {
 			}
 		}
 	}
+	// methods with an engine receiver (engine/*.go): assignments to the receiver's fields and
+	// addresses taken of them - what would make one query visible to another
+	var engWrites, engAddrs []string
+	for _, f := range files {
+		if !strings.HasPrefix(f.path, "engine/") {
+			continue
+		}
+		for _, d := range f.ast.Decls {
+			fd, ok := d.(*ast.FuncDecl)
+			if !ok || fd.Body == nil || fd.Recv == nil || len(fd.Recv.List) == 0 || len(fd.Recv.List[0].Names) == 0 {
+				continue
+			}
+			rt := render(fd.Recv.List[0].Type)
+			if !strings.Contains(rt, "Engine") {
+				continue
+			}
+			recv := fd.Recv.List[0].Names[0].Name
+			ast.Inspect(fd.Body, func(n ast.Node) bool {
+				switch v := n.(type) {
+				case *ast.AssignStmt:
+					for _, l := range v.Lhs {
+						if strings.HasPrefix(render(l), recv+".") {
+							engWrites = append(engWrites, f.path+":"+fd.Name.Name+":"+render(l))
+						}
+					}
+				case *ast.IncDecStmt:
+					if strings.HasPrefix(render(v.X), recv+".") {
+						engWrites = append(engWrites, f.path+":"+fd.Name.Name+":"+render(v.X))
+					}
+				case *ast.UnaryExpr:
+					if v.Op == token.AND && strings.HasPrefix(render(v.X), recv+".") {
+						engAddrs = append(engAddrs, f.path+":"+fd.Name.Name+":&"+render(v.X))
+					}
+				}
+				return true
+			})
+		}
+	}
+	sort.Strings(engWrites)
+	sort.Strings(engAddrs)
+	w("def engineFieldWrites : List String := %s", lstr(engWrites))
+	w("def engineFieldAddrs : List String := %s", lstr(engAddrs))
+	// the capacity of coalesce's error channels
+	var errCaps []string
+	if cf := find(files, "execution/exchange/coalesce.go"); cf != nil {
+		ast.Inspect(cf, func(n ast.Node) bool {
+			if c, ok := n.(*ast.CallExpr); ok && exprString(c.Fun) == "make" && len(c.Args) >= 1 && render(c.Args[0]) == "errorChan" {
+				if len(c.Args) >= 2 {
+					errCaps = append(errCaps, render(c.Args[1]))
+				} else {
+					errCaps = append(errCaps, "0")
+				}
+			}
+			return true
+		})
+	}
+	w("def coalesceErrChanCaps : List String := %s", lstr(errCaps))
 	sort.Strings(closeCalls)
 	w("def execPointsWrites : List String := %s", lstr(pointsWrites))
 	w("def execPoolPuts : List String := %s", lstr(poolPuts))
